@@ -67,5 +67,6 @@ PerId == vIdx > 0 =>
        /\ PrintT(ToJson([k |-> "sat", e |-> id, a |-> <<id>>, sat |-> TRUE, err |-> FALSE]))
        /\ Valid(id)
   ELSE /\ Str(P \o " WITH " \o id, TRUE) /\ Str(id, FALSE) /\ Str(P \o " AND " \o id, FALSE) /\ Str(id \o " WITH " \o id, FALSE)
+       /\ Str(P \o "+ WITH " \o id, TRUE) /\ Str("(" \o P \o "-or-later WITH " \o ToLower(id) \o ")", TRUE)
        /\ Valid(P \o " WITH " \o id) /\ ~Valid(id) /\ ~Valid(P \o " AND " \o id)
 =============================================================================
